@@ -1561,3 +1561,55 @@ func scPromotedLeaseOnce(r *rng, lease time.Duration) (*cluster, string) {
 }
 
 func init() { scenarioFamilies[17] = scPromotedLease }
+
+// ---------------------------------------------------------------- family 19: two overlapping VerifyLeader calls (C09)
+// Five voters, one-hour timers. The answers of C, D, E to the leader A are held; B answers. v1 is called: it has A and B.
+// B is cut off, the cluster is quiet, v2 is called: it has A only. ONE held answer (C's) is released: v1 reaches its
+// quorum of three (A, B, C); v2 has at most A and C - two of five - and must not be answered nil: each call needs its own
+// majority of voters acknowledging after IT was made.
+func scVerifyOverlap(r *rng) *cluster {
+	c := basicCluster(clusterOpts{voters: 5, nonvoters: r.intn(2), trailing: 100, maxAppend: 4})
+	if !c.elect(pick(r, c.ids[:5]), time.Second) {
+		return c
+	}
+	l := c.leader()
+	c.call(l.id, "apply", 9400, 0).wait(200 * time.Millisecond)
+	c.settle(200 * time.Millisecond)
+	var others []uint64
+	for _, id := range c.ids[:5] {
+		if id != l.id {
+			others = append(others, id)
+		}
+	}
+	for i := range others {
+		j := r.intn(i + 1)
+		others[i], others[j] = others[j], others[i]
+	}
+	B, held := others[0], others[1:]
+	for _, id := range held {
+		c.net.set(l.id, id, linkHoldResp)
+	}
+	v1 := c.call(l.id, "verify", 0, 0)
+	v1.wait(30 * time.Millisecond) // pending: A and B of five
+	c.net.setBoth(l.id, B, linkDown)
+	c.settle(100 * time.Millisecond)
+	c.h.add(hev{kind: "note", s: "quiet-before-verify"})
+	v2 := c.call(l.id, "verify", 0, 0)
+	v2.wait(30 * time.Millisecond)
+	// one held answer comes back (it may belong to an exchange sent before v2 was made: finding F2b counts it for v2 as well)
+	c.net.release(l.id, held[0], true)
+	v1.wait(200 * time.Millisecond)
+	v2.wait(100 * time.Millisecond)
+	c.heal()
+	for _, id := range others {
+		for i := 0; i < 8; i++ {
+			c.net.release(l.id, id, true)
+		}
+	}
+	v1.wait(200 * time.Millisecond)
+	v2.wait(200 * time.Millisecond)
+	time.Sleep(3 * time.Millisecond)
+	return c
+}
+
+func init() { scenarioFamilies[19] = scVerifyOverlap }
